@@ -21,6 +21,8 @@ Chunking8 == \A k \in Splits : /\ Strm8(Strm8(seed, A(k)), B(k)) = Strm8(seed, m
 Chunking16 == \A k \in Splits : Crc16(Crc16(<<seed, 255 - seed>>, A(k)), B(k)) = Crc16(<<seed, 255 - seed>>, msg)
 Chunking32 == \A k \in Splits : k % 4 = 0 =>
                  Crc32(Crc32(<<seed, 1, 2, 255 - seed>>, A(k)), B(k)) = Crc32(<<seed, 1, 2, 255 - seed>>, msg)
+\* the byte-at-a-time form is the same function (any length, any tail)
+Fast32Same == Fast32(<<seed, 1, 2, 255 - seed>>, msg) = Crc32(<<seed, 1, 2, 255 - seed>>, msg) /\ Fast32(<<255, 255, seed, 0>>, msg \o msg \o <<seed>>) = Crc32(<<255, 255, seed, 0>>, msg \o msg \o <<seed>>)
 Residue8 == Strm8(seed, Append(msg, Strm8(seed, msg))) = 0
 \* the table-driven integer form of Gstuff.tla is the same function
 SameAsTableForm == Strm8(seed, msg) = Crc8(seed, msg)
